@@ -13,6 +13,14 @@ import (
 	"regexp"
 	"strings"
 	"time"
+
+	sdkmath "cosmossdk.io/math"
+	assetskeeper "github.com/ExocoreNetwork/exocore/x/assets/keeper"
+	assetstypes "github.com/ExocoreNetwork/exocore/x/assets/types"
+	delegationtypes "github.com/ExocoreNetwork/exocore/x/delegation/types"
+	epochstypes "github.com/ExocoreNetwork/exocore/x/epochs/types"
+	sdk "github.com/cosmos/cosmos-sdk/types"
+	"github.com/ethereum/go-ethereum/common"
 )
 
 func init() { register("oracle_restart", domOracleC14) }
@@ -23,6 +31,7 @@ type c14Block struct {
 	txs  []orcTx
 	open map[int]uint64
 	step time.Duration
+	pre  func(o *orc) // real-application action before the transactions (no model op: its effect reaches the model as the validator updates of a later EndBlock)
 }
 
 type c14Trace struct {
@@ -30,12 +39,17 @@ type c14Trace struct {
 	endObs  []string
 	hashes  []string
 	safeAt  []bool // restart after this block satisfies the partial theorem's hypothesis
+	nUpd    []int  // number of validator updates x/dogfood returned at this block's EndBlock
 }
 
 // runC14 executes the blocks; restartAfter = index of the block after which (post BeginBlock of the
 // next one) the restart happens, or -1. gen != nil generates (and records) the blocks.
 func runC14(env *Env, seed uint64, spec orcSpec, blocks *[]c14Block, nb int, gen func(d *orcDriver) c14Block, restartAfter int) (*c14Trace, string) {
-	o := newOrc(env, seed, spec, nil)
+	return runC14Cfg(env, seed, spec, nil, blocks, nb, gen, restartAfter)
+}
+
+func runC14Cfg(env *Env, seed uint64, spec orcSpec, mutateCfg func(*ChainCfg), blocks *[]c14Block, nb int, gen func(d *orcDriver) c14Block, restartAfter int) (*c14Trace, string) {
+	o := newOrc(env, seed, spec, mutateCfg)
 	o.emitSetup()
 	d := newOrcDriver(o, NewRNG(seed))
 	tr := &c14Trace{}
@@ -51,16 +65,21 @@ func runC14(env *Env, seed uint64, spec orcSpec, blocks *[]c14Block, nb int, gen
 		for fi, base := range blk.open {
 			d.roundLog(fi, base)
 		}
+		if blk.pre != nil {
+			blk.pre(o)
+		}
 		var cls []string
 		for _, t := range blk.txs {
 			cls = append(cls, d.sendTx(t, blk.open))
 		}
 		tr.classes = append(tr.classes, cls)
+		tr.nUpd = append(tr.nUpd, 0)
 		upd, halted := d.endBlock()
 		if halted {
 			return tr, "halt"
 		}
 		d.applyUpdates(upd)
+		tr.nUpd[len(tr.nUpd)-1] = len(upd)
 		tr.endObs = append(tr.endObs, o.fullObs())
 		// hypothesis of C14_partial at this point: no feeder's window is in a state the replay log
 		// cannot reproduce (closed inside its window, or a validator with two accepted messages)
@@ -161,6 +180,17 @@ func c14Compare(env *Env, spec orcSpec, a, b *c14Trace, from int, tag string, hi
 }
 
 func c14Directed(env *Env, name, tag string, spec orcSpec, nb, restartAfter int, script func(d *orcDriver, h uint64) []orcTx) {
+	c14DirectedCfg(env, name, tag, spec, nb, restartAfter, nil, func(d *orcDriver, h uint64) c14Block {
+		return c14Block{txs: script(d, h), step: 2 * time.Second}
+	}, nil)
+}
+
+// c14DirectedCfg: continuous vs. restarted run of a scripted history; blockOf supplies the
+// transactions, the time step and an optional real-application action of each block; check (optional)
+// inspects the continuous trace and returns "" or the reason why the scenario did not take shape
+// (then nothing is compared and the outcome says so).
+func c14DirectedCfg(env *Env, name, tag string, spec orcSpec, nb, restartAfter int, mutateCfg func(*ChainCfg),
+	blockOf func(d *orcDriver, h uint64) c14Block, check func(a *c14Trace) string) {
 	var blocks []c14Block
 	gen := func(d *orcDriver) c14Block {
 		h := uint64(d.c.Header.Height)
@@ -170,13 +200,20 @@ func c14Directed(env *Env, name, tag string, spec orcSpec, nb, restartAfter int,
 				open[fi] = b
 			}
 		}
-		return c14Block{txs: script(d, h), open: open, step: 2 * time.Second}
+		blk := blockOf(d, h)
+		blk.open = open
+		return blk
 	}
 	seed := uint64(141400 + len(name))
-	a, _ := runC14(env, seed, spec, &blocks, nb, gen, -1)
-	markA := env.Report.Ops
-	b, r := runC14(env, seed, spec, &blocks, nb, nil, restartAfter)
-	_ = markA
+	a, _ := runC14Cfg(env, seed, spec, mutateCfg, &blocks, nb, gen, -1)
+	if check != nil {
+		if why := check(a); why != "" {
+			env.Outcome("directed-" + name + ":not-set-up:" + why)
+			env.Report.Histories++
+			return
+		}
+	}
+	b, r := runC14Cfg(env, seed, spec, mutateCfg, &blocks, nb, nil, restartAfter)
 	env.Outcome("directed-" + name + ":" + firstN(strings.SplitN(r, "|", 2)[0], 20))
 	hist := []string{"orc.reset", "# directed " + name + ": same inputs, restart after block " + fmt.Sprint(restartAfter+1)}
 	for _, blk := range blocks {
@@ -229,8 +266,116 @@ func domOracleC14(env *Env) error {
 			return nil
 		})
 	}
+	mkB := func(d *orcDriver, v int, based uint64, nonce int32, det, price string) orcTx {
+		return orcTx{Msgs: []orcMsg{{Creator: v, Feeder: 1, Based: based, Nonce: nonce, Srcs: []orcSource{{ID: 1, Prices: []orcPrice{{Price: price, Dec: 0, Ts: d.c.Header.Time.Unix(), DetID: det}}}}}}}
+	}
+	if env.Int("f14c", 0) == 1 {
+		// F-14c: restart in the block right after a validator-set change. recacheAggregatorContext takes
+		// its `from >= to` branch (ValidatorUpdateBlock = to-1), which sets params and validators but never
+		// calls PrepareRoundEndBlock: the restarted node has no rounds until its next EndBlock and refuses
+		// the price the continuous node accepts for the round that opened in the block of the change.
+		// Real validator-set change: one more USDT delegated to operator 2 in block 2 (minute epochs), the
+		// epoch ends with the BeginBlock of block 9 (a 70 s step), x/dogfood returns the update at
+		// EndBlock(9) - the block at which round 3 (base 9) opens.
+		c14DirectedCfg(env, "restart-after-valset-change", ":F-14c:restart-after-valset-change", base, 12, 8,
+			func(c *ChainCfg) { c.EpochID = epochstypes.MinuteEpochID },
+			func(d *orcDriver, h uint64) c14Block {
+				blk := c14Block{step: 2 * time.Second}
+				switch h {
+				case 2:
+					blk.pre = func(o *orc) {
+						c := o.c
+						addr := common.HexToAddress(c.Cfg.Assets[0].Addr).Bytes()
+						staker := NewActor(141403, "f14c-staker", 0)
+						amt := sdkmath.NewIntWithDecimal(1, int(c.Cfg.Assets[0].Decimals))
+						err := c.CachedDo(func(ctx sdk.Context) error {
+							if err := c.App.AssetsKeeper.PerformDepositOrWithdraw(ctx, &assetskeeper.DepositWithdrawParams{
+								ClientChainLzID: c.LzID, Action: assetstypes.DepositLST, StakerAddress: staker.Eth.Bytes(), AssetsAddress: addr, OpAmount: amt}); err != nil {
+								return err
+							}
+							return c.App.DelegationKeeper.DelegateTo(ctx, &delegationtypes.DelegationOrUndelegationParams{
+								ClientChainID: c.LzID, Action: assetstypes.DelegateTo, AssetsAddress: addr, OperatorAddress: c.Operators[2].Acc,
+								StakerAddress: staker.Eth.Bytes(), OpAmount: amt, LzNonce: 9100, TxHash: common.BytesToHash(detBytes(141403, "f14c", 0))})
+						})
+						if err != nil {
+							o.env.Note("f14c-delegation-failed: " + firstN(err.Error(), 80))
+						}
+					}
+				case 8:
+					blk.step = 70 * time.Second // BeginBlock(9) ends the minute epoch
+				case 10:
+					blk.txs = []orcTx{mkB(d, 0, 9, 1, "9", "2")}
+				case 11:
+					blk.txs = []orcTx{mkB(d, 1, 9, 1, "9", "2")}
+				}
+				return blk
+			},
+			func(a *c14Trace) string {
+				for i, n := range a.nUpd {
+					if n > 0 && i != 8 {
+						return fmt.Sprintf("validator-update-at-block-%d", i+1)
+					}
+				}
+				if len(a.nUpd) < 9 || a.nUpd[8] == 0 {
+					return "no-validator-update-at-block-9"
+				}
+				return ""
+			})
+	}
+	if env.Int("f14d", 0) == 1 {
+		// F-14d: a chain younger than MaxNonce. `block - uint64(common.MaxNonce)` in cacheMsgs.commit wraps
+		// for block < MaxNonce, `b > huge` is false for every index entry, and the commit of block 3 removes
+		// the RecentMsg of block 2, which a restart in block 4 still needs (from = 2). MaxNonce 5, feeder
+		// base 1, powers 10/10/10 (threshold: all three): v1 at block 2, v2 at block 3, restart, v0 at
+		// block 4 - the continuous node finalizes, the restarted one (v1's report lost) does not.
+		young := orcSpec{Powers: []int64{10, 10, 10}, MaxNonce: 5, ThA: 2, ThB: 3, MaxDetID: 5, MaxSize: 100,
+			Sources: [][2]bool{{true, true}}, Rules: [][]uint64{{0}, {1}}, TokenDec: []int32{0},
+			Feeders: []orcFeeder{{Token: 1, Rule: 2, StartRound: 2, StartBase: 1, Interval: 9}}, GenNext: []uint64{2}, GenPrice: []string{"1"}}
+		c14DirectedCfg(env, "young-chain-log-erased", ":F-14d:young-chain-log-erased", young, 8, 2, nil,
+			func(d *orcDriver, h uint64) c14Block {
+				blk := c14Block{step: 2 * time.Second}
+				switch h {
+				case 2:
+					blk.txs = []orcTx{mkB(d, 1, 1, 1, "9", "2")}
+				case 3:
+					blk.txs = []orcTx{mkB(d, 2, 1, 1, "9", "2")}
+				case 4:
+					blk.txs = []orcTx{mkB(d, 0, 1, 1, "9", "2")}
+				}
+				return blk
+			}, nil)
+	}
+	if env.Int("f14f", 0) == 1 {
+		// candidate F-14f (not in the registry args): recacheAggregatorContext computes the start of its
+		// replay window from the package variable common.MaxNonce *before* any params are read; a fresh
+		// process holds the compiled-in default 3 there, not params.MaxNonce. MaxNonce 5, feeder base 6
+		// (chain older than MaxNonce), v1 at block 7, v2 at block 8, restart in block 10, v0 at block 10:
+		// the restarted process replays blocks 8..9 only and loses v1's report of block 7.
+		wide := orcSpec{Powers: []int64{10, 10, 10}, MaxNonce: 5, ThA: 2, ThB: 3, MaxDetID: 5, MaxSize: 100,
+			Sources: [][2]bool{{true, true}}, Rules: [][]uint64{{0}, {1}}, TokenDec: []int32{0},
+			Feeders: []orcFeeder{{Token: 1, Rule: 2, StartRound: 2, StartBase: 6, Interval: 11}}, GenNext: []uint64{2}, GenPrice: []string{"1"}}
+		c14DirectedCfg(env, "window-from-default-maxnonce", ":F-14f:window-from-default-maxnonce", wide, 14, 8, nil,
+			func(d *orcDriver, h uint64) c14Block {
+				blk := c14Block{step: 2 * time.Second}
+				switch h {
+				case 7:
+					blk.txs = []orcTx{mkB(d, 1, 6, 1, "9", "2")}
+				case 8:
+					blk.txs = []orcTx{mkB(d, 2, 6, 1, "9", "2")}
+				case 10:
+					blk.txs = []orcTx{mkB(d, 0, 6, 1, "9", "2")}
+				}
+				return blk
+			}, nil)
+	}
 	for hi := 0; hi < n; hi++ {
 		spec := genOrcSpec(rng, true)
+		if env.Int("varynonce", 0) == 1 && hi%2 == 1 {
+			// every second random history runs with MaxNonce 2 or 4 instead of the package default 3 (a
+			// restarted process must take its replay window from the stored params: F-14f, and on a young
+			// chain the log must not be erased: F-14d)
+			spec.MaxNonce = int32(2 + 2*(hi/2%2))
+		}
 		seed := env.Report.Seed*3000 + uint64(hi)
 		var blocks []c14Block
 		nb := 14 + rng.Intn(maxBlocks)
